@@ -170,7 +170,7 @@ pub struct Case {
 // ------------------------------------------------------------------------------------------
 
 fn text(max_chars: usize) -> impl Strategy<Value = String> + Clone {
-	pvec(prop_oneof![6 => (0x20u32..0x7f), 1 => any::<char>().prop_map(|c| c as u32), 1 => Just(0x1f600u32)], 0..max_chars)
+	pvec(prop_oneof![6 => 0x20u32..0x7f, 1 => any::<char>().prop_map(|c| c as u32), 1 => Just(0x1f600u32)], 0..max_chars)
 		.prop_map(|v| v.into_iter().map(|c| char::from_u32(c).unwrap_or('?')).collect())
 }
 
